@@ -444,7 +444,7 @@ func (e *Engine) appendOp(st *State, c *ssa.CallCommon, args []Val, pos token.Po
 				if getElem != nil {
 					ev = getElem(tb.Int(i))
 				} else {
-					ev = e.loadPx(st, &PtrX{Kind: PElem, Ref: t.slArr(), Idx: tb.Add(t.slOff(), tb.Int(i)), Root: elT, Elem: -1}, elT)
+					ev = e.loadPx(st, &PtrX{Kind: PElem, Ref: t.slArr(), Idx: tb.Idx(t.slOff(), tb.Int(i)), Root: elT, Elem: -1}, elT)
 				}
 				if ev.Ann != nil {
 					ev = e.escape(st, elT, ev)
